@@ -22,49 +22,55 @@ EXTENDS Naturals, FiniteSets, TLC
 VARIABLES
   dma,      \* live DMA regions: allocation sequence number |-> pages
   phase,    \* "run" | "panicked" | "stuck" | "dropped"
-  pending   \* name of the call in progress, or "none"
+  pending,  \* name of the call in progress, or "none"
+  live      \* the device has been told DRIVER_OK and has not been reset since
 
-avars == <<dma, phase, pending>>
+avars == <<dma, phase, pending, live>>
 
-AInit == dma = <<>> /\ phase = "run" /\ pending = "none"
-AReset == dma' = <<>> /\ phase' = "run" /\ pending' = "none"
+AInit == dma = <<>> /\ phase = "run" /\ pending = "none" /\ live = FALSE
+AReset == dma' = <<>> /\ phase' = "run" /\ pending' = "none" /\ live' = FALSE
+
+\* a write of the status register as the device saw it
+Status(driverOk, reset) ==
+  /\ live' = IF reset THEN FALSE ELSE (live \/ driverOk)
+  /\ UNCHANGED <<dma, phase, pending>>
 
 DmaAlloc(seq, pages, failed) ==
   /\ seq \notin DOMAIN dma
   /\ dma' = IF failed THEN dma ELSE (seq :> pages) @@ dma
-  /\ UNCHANGED <<phase, pending>>
+  /\ UNCHANGED <<phase, pending, live>>
 
 \* released exactly once, and exactly as allocated
 DmaDealloc(seq, known, vaOk, pagesOk, apOk) ==
   /\ known /\ vaOk /\ pagesOk /\ apOk
   /\ seq \in DOMAIN dma
   /\ dma' = [s \in DOMAIN dma \ {seq} |-> dma[s]]
-  /\ UNCHANGED <<phase, pending>>
+  /\ UNCHANGED <<phase, pending, live>>
 
 \* the driver object is only used while it is alive
 Call(o) ==
   /\ phase = "run" /\ pending = "none"
   /\ pending' = o
-  /\ UNCHANGED <<dma, phase>>
+  /\ UNCHANGED <<dma, phase, live>>
 Ret ==
   /\ phase = "run" /\ pending # "none"
   /\ pending' = "none"
-  /\ UNCHANGED <<dma, phase>>
+  /\ UNCHANGED <<dma, phase, live>>
 
 \* a panic is acceptable only if it is one of the crate's own checks
 Panic(clean) ==
   /\ clean
   /\ phase \in {"run", "panicked"}         \* (a second panic while unwinding would abort)
   /\ phase' = "panicked" /\ pending' = "none"
-  /\ UNCHANGED dma
+  /\ UNCHANGED <<dma, live>>
 Stuck ==
   /\ phase = "run"
   /\ phase' = "stuck" /\ pending' = "none"
-  /\ UNCHANGED dma
+  /\ UNCHANGED <<dma, live>>
 Drop ==
   /\ phase = "run" /\ pending = "none"
   /\ phase' = "dropped"
-  /\ UNCHANGED <<dma, pending>>
+  /\ UNCHANGED <<dma, pending, live>>
 
 \* a slice handed to the caller lies inside the region backing it (both in pages)
 Slice(lenPages, capPages) ==
@@ -75,9 +81,11 @@ Slice(lenPages, capPages) ==
 \* is the device being left with access to memory the caller believes to own again; after a panic
 \* or an endless wait it is the unwinding of the test process and says nothing about the crate;
 \* when the driver is dropped its buffers are freed after the queues were taken from the device
-\* (that order is C09's subject, Lifecycle.tla).
+\* (that order is C09's subject, Lifecycle.tla).  A device that was never told DRIVER_OK, or has
+\* been reset since, is not live on any queue (the definition C09 gives): a constructor that
+\* fails before DRIVER_OK drops what it built, buffers of its stocked queues included.
 FreeWhileShared ==
-  /\ phase \in {"panicked", "stuck", "dropped"}
+  /\ phase \in {"panicked", "stuck", "dropped"} \/ ~live
   /\ UNCHANGED avars
 
 TypeOK == phase \in {"run", "panicked", "stuck", "dropped"}
